@@ -510,18 +510,30 @@ func genC03(c *Ctx) {
 			// the action AFTER the end tag of a special element, the end tag written with every separator before '>'
 			forms = []string{"content", "after"}
 		}
+		if ctx[1] == "" && ctx[0] == "script" {
+			// script elements with a type attribute (data blocks, modules): still script content
+			forms = append(forms, "script-type")
+		}
+		if ctx[1] == "" && ctx[0] == "p" {
+			// an action after a loop that was left by {{break}} inside a quoted attribute value
+			forms = append(forms, "after-break")
+		}
 		if ctx[1] != "" {
 			forms = []string{"dq", "sq"}
 			prefixes = []string{"", "/p/", "/p?q=", "https://x.example/"}
 		}
 		for _, form := range forms {
-			if form == "after" {
+			if form == "script-type" {
+				prefixes = []string{"text/plain", "application/json", "text/template", "module", "importmap", "TEXT/HTML", ""}
+			} else if form == "after-break" {
+				prefixes = []string{"{{break}}", "{{continue}}"}
+			} else if form == "after" {
 				prefixes = []string{"", " ", "\t", "\n", "\f", "\r", "/", " \r ", "\r/"}
 			} else if ctx[1] == "" {
 				prefixes = []string{""}
 			}
 			for _, pre := range prefixes {
-				if form == "after" {
+				if form == "after" || form == "script-type" || form == "after-break" {
 				} else if pre != "" && !(ctx[1] == "href" || ctx[1] == "src" || ctx[1] == "action" || ctx[1] == "formaction") {
 					continue
 				}
@@ -533,6 +545,11 @@ func genC03(c *Ctx) {
 							}
 							var text string
 							switch form {
+							case "script-type":
+								text = "<script type=\"" + pre + "\">{{.}}</script>"
+							case "after-break":
+								// the value is printed after the loop; inside the loop it is only tested
+								text = "<ul>{{with $v := .}}{{range $i := \"ab\"}}<li title=\"x{{if $v}}" + pre + "{{end}}\">y</li>{{end}}{{end}}</ul>{{.}}"
 							case "after":
 								text = "<" + ctx[0] + ">x</" + ctx[0] + pre + ">{{.}}</" + ctx[0] + ">"
 							case "content":
